@@ -547,6 +547,10 @@ func (g *Genome) duplicateControlGenes(traits []*neat.Trait, nodeIdMap map[int]*
 					l.InNode.Id, controlNode.Id)
 			}
 			newInLink := network.NewLinkCopy(l, inNode, nodeCopy)
+			if l.Trait != nil {
+				// the link of the copy refers to the copy's own trait
+				newInLink.Trait = TraitWithId(l.Trait.Id, traits)
+			}
 			nodeCopy.Incoming = append(nodeCopy.Incoming, newInLink)
 		}
 
@@ -558,6 +562,10 @@ func (g *Genome) duplicateControlGenes(traits []*neat.Trait, nodeIdMap map[int]*
 					l.InNode.Id, controlNode.Id)
 			}
 			newOutLink := network.NewLinkCopy(l, nodeCopy, outNode)
+			if l.Trait != nil {
+				// the link of the copy refers to the copy's own trait
+				newOutLink.Trait = TraitWithId(l.Trait.Id, traits)
+			}
 			nodeCopy.Outgoing = append(nodeCopy.Outgoing, newOutLink)
 		}
 
